@@ -70,6 +70,22 @@ def typedKernel (k : K) (a b : Val) : Out :=
   | .klsh_i_ii => ii Arith.lsh | .ksrsh_i_ii => ii Arith.srsh | .kursh_i_ii => ii Arith.ursh
   | .kmin_i_ii => ii Arith.min_i_ii | .kmin_f_ff => ff Arith.fmin | .kmin_f_fi => fI Arith.fmin | .kmin_f_if => If Arith.fmin
   | .kmax_i_ii => ii Arith.max_i_ii | .kmax_f_ff => ff Arith.fmax | .kmax_f_fi => fI Arith.fmax | .kmax_f_if => If Arith.fmax
+  -- bool and string min/max return one of their operands; written payload-first so that the
+  -- result kind is visible without knowing the payloads
+  | .kmin_b_bb => (match a, b with
+      | .bool x, .bool y => .val (.bool (x && y))
+      | .bool false, _ => .val a | .bool true, _ => .val b | _, _ => .panic)
+  | .kmax_b_bb => (match a, b with
+      | .bool x, .bool y => .val (.bool (x || y))
+      | _, .bool false => .val a | _, .bool true => .val b | _, _ => .panic)
+  | .kmin_s_ss => (match a, b with
+      | .str x, .str y => .val (.str (if bytesLt x y then x else y))
+      | _, _ => match a.text?, b.text? with
+        | some x, some y => .val (if bytesLt x y then a else b) | _, _ => .panic)
+  | .kmax_s_ss => (match a, b with
+      | .str x, .str y => .val (.str (if bytesLt y x then x else y))
+      | _, _ => match a.text?, b.text? with
+        | some x, some y => .val (if bytesLt y x then a else b) | _, _ => .panic)
   | _ => .unmodelled
 
 /-- Apply the cell of a binary table. `unegTable` is the table `_n2__` dispatches through. -/
@@ -114,6 +130,25 @@ def evalUnary (t : List K) (a : Val) : Out :=
       else if k == .kbitwise_not_i_i then (match a with | .int x => .val (Arith.bitnot x) | _ => .panic)
       else .unmodelled
     | _ => .unmodelled
+
+
+/-- The variadic `min`/`max` of the DSL (`BIF_min_variadic`/`BIF_max_variadic`): empty argument list
+is empty; otherwise a left fold of the binary table over the arguments, every operand first sent
+through the unary vector (which collapses collections), STARTING FROM THE FIRST ARGUMENT. -/
+def variadic (bt : List (List K)) (ut un : List K) (vs : List Val) : Out :=
+  match vs with
+  | [] => .val .void
+  | v0 :: _ =>
+    let step (acc : Out) (e : Val) : Out :=
+      match acc with
+      | .val a =>
+        match evalUnary ut a, evalUnary ut e with
+        | .val a', .val e' => evalBinary bt un a' e'
+        | .panic, _ => .panic
+        | _, .panic => .panic
+        | _, _ => .unmodelled
+      | o => o
+    vs.foldl step (evalUnary ut v0)
 
 /-- Binary tables by the name the harness uses. -/
 def binaryTable (name : String) : Option (List (List K)) :=
